@@ -22,6 +22,8 @@ static const char *const NAMES[] = {
 	"serial queue with an item that re-submits to the queue being released",
 	"serial queue: ownership handed to an item (the item releases the last application reference) while a drainer is active",
 	"data source whose cancel handler drops the last application reference: merge, then cancel from the main thread",
+	"block object submitted with dispatch_async, dispatch_block_wait(FOREVER) racing its completion, then one more item and the last release of the queue",
+	"block object submitted with dispatch_async, a second thread polls dispatch_block_wait(NOW) then waits FOREVER, the main thread releases the queue",
 };
 #define NSC ((int)(sizeof(NAMES) / sizeof(NAMES[0])))
 enum { OBJ_Q = 1, OBJ_T = 2, OBJ_SRC = 3, OBJ_GRP = 4, OBJ_SEM = 5 };
@@ -34,6 +36,7 @@ static dispatch_group_t g_grp;
 static dispatch_semaphore_t g_sem;
 static dispatch_data_t g_data, g_sub;
 static int g_scen, g_done;
+static dispatch_block_t g_blk;
 static char g_ctx_q[4] = "ctx", g_buf[4] = "xyz";
 
 static void note_done(void) { g_done++; }
@@ -86,6 +89,9 @@ static void t1_fn(void *arg)
 	case 3: dispatch_suspend(g_q); dispatch_async_f(g_q, (void *)(intptr_t)2, item); dispatch_resume(g_q); rel(g_q, OBJ_Q); break;
 	case 7: dispatch_semaphore_wait(g_sem, DISPATCH_TIME_FOREVER); rel(g_sem, OBJ_SEM); note_done(); break;
 	case 9: rel(g_sub, 9); break;
+	case 14:
+		if (dispatch_block_wait(g_blk, DISPATCH_TIME_NOW)) dispatch_block_wait(g_blk, DISPATCH_TIME_FOREVER);
+		note_done(); break;
 	}
 }
 
@@ -214,6 +220,17 @@ static void run(int v)
 		dispatch_async_f(g_q, (void *)(intptr_t)1, item);
 		dispatch_async_f(g_q, (void *)(intptr_t)2, item_releases_queue);
 		expect = 3; break;
+	case 13: case 14:
+		// the references a submitted block object holds on its queue are consumed exactly once, by the waiter or by the worker
+		g_q = mkq("vx.life.q", NULL, g_t, OBJ_Q); warm(g_q);
+		g_blk = dispatch_block_create(0, ^{ item_body(1); note_done(); });
+		vx_focus_begin();
+		if (v == 14) th = vx_thread(t1_fn, NULL);
+		dispatch_async(g_q, g_blk);
+		if (v == 13) dispatch_block_wait(g_blk, DISPATCH_TIME_FOREVER);
+		dispatch_async_f(g_q, (void *)(intptr_t)2, item);
+		rel(g_q, OBJ_Q);
+		expect = v == 13 ? 3 : 4; break;
 	}
 	if (th >= 0) vx_join(th);
 	wait_done(expect);
@@ -234,7 +251,7 @@ static int check(int v, const vx_log *l, char *msg, size_t len)
 {
 	int last_end = ev_last(l, EV_END, 1);
 	for (uint32_t i = 0; i < l->n; i++) if (l->ev[i].kind == EV_END && (int)i > last_end) last_end = (int)i;
-	int has_final = (v <= 5 || v == 10 || v == 11 || v == 12), nfinal = 0, nfree_q = ev_count(l, EV_FREE, OBJ_Q);
+	int has_final = (v <= 5 || v >= 10), nfinal = 0, nfree_q = ev_count(l, EV_FREE, OBJ_Q);
 	for (uint32_t i = 0; i < l->n; i++) {
 		const vx_event *e = &l->ev[i];
 		if (e->kind == EV_FINAL) {
